@@ -19,8 +19,23 @@ Proof. unfold len. rewrite Nat2N.id. rewrite app_nth2 by lia. rewrite Nat.sub_di
 Lemma tailtext_nil_inv rl : tailtext true rl = [] -> rl = [].
 Proof. destruct rl; cbn [tailtext]; [reflexivity|discriminate]. Qed.
 
+Lemma walk1_cons_mixed cfg ff p d tld bidi he label labels m aps seen pte flushed huo :
+  walk1 cfg ff p d tld bidi he (label :: labels) (MixedCaseAscii m :: aps) seen pte flushed huo =
+  let body := fun pte0 => mixed_write cfg d m he true 830 844 pte0 flushed
+                            (fun pte1 fl => walk1 cfg ff p d tld bidi he labels aps true pte1 fl huo) in
+  if seen then
+    if flushed then wcons [DOT] (body pte)
+    else if cfg && negb (nth (N.to_nat pte) d 256 =? DOT) then ([], WPanic 810)
+    else if pte + 1 =? len d then (if cfg && he then ([], WPanic 813) else ([], WPass))
+    else body (pte + 1)
+  else body pte.
+Proof. reflexivity. Qed.
+
+(* the walk in either mode and under any display policy: a MixedCaseAscii entry is written from the input bytes *)
 Section WalkAN.
 Variable cfg : bool.
+Variable ff : bool.
+Variable pol : list N -> list N -> bool -> bool.
 Variable d : list N.
 Variable tld : list N.
 Variable bidi : bool.
@@ -73,7 +88,7 @@ Qed.
 Definition WalkSpec (rl : list (list N)) : Prop := forall labels seen pte flushed huo P,
   List.length labels = List.length rl ->
   (flushed = false -> d = P ++ tailtext seen rl /\ len P = pte /\ rl <> []) ->
-  let w := walk1 cfg true never_unicode d tld bidi false labels (map MixedCaseAscii rl) seen pte flushed huo in
+  let w := walk1 cfg ff pol d tld bidi false labels (map MixedCaseAscii rl) seen pte flushed huo in
   let T := tailtext seen (map (map to_lower) rl) in
   (flushed = true -> Ended w T) /\ (flushed = false -> Res w (P ++ T)).
 
@@ -83,21 +98,17 @@ Proof.
   - destruct labels; [|discriminate]. cbn [map walk1]. split; intros Hf.
     + split; [exists huo; reflexivity|]. destruct seen; reflexivity.
     + destruct (Hpos Hf) as (_ & _ & Hne). contradiction Hne. reflexivity.
-  - destruct labels as [|label labels']; [discriminate|]. cbn [map]. rewrite walk1_cons. cbv zeta.
+  - destruct labels as [|label labels']; [discriminate|]. cbn [map]. rewrite walk1_cons_mixed. cbv zeta.
     cbn [List.length] in Hlen. injection Hlen as Hlen.
-    set (kk := fun (pte1 : N) (fl : bool) => walk1 cfg true never_unicode d tld bidi false labels' (map MixedCaseAscii rl') true pte1 fl huo).
+    set (kk := fun (pte1 : N) (fl : bool) => walk1 cfg ff pol d tld bidi false labels' (map MixedCaseAscii rl') true pte1 fl huo).
     set (T' := tailtext true (map (map to_lower) rl')).
     assert (Hk : forall p, Ended (kk p true) T').
     { intros p. exact (proj1 (IH labels' true p true huo [] Hlen (fun H : true = false => match Bool.diff_true_false H with end)) eq_refl). }
     (* the body at position pte0, with the text before it P0 *)
     assert (HB : forall pte0 P0, (flushed = false -> d = P0 ++ m ++ tailtext true rl' /\ len P0 = pte0) ->
-              (flushed = true -> Ended (w1body cfg d tld bidi false label (MixedCaseAscii m) huo flushed
-                                          (fun huo0 pte1 fl => walk1 cfg true never_unicode d tld bidi false labels' (map MixedCaseAscii rl') true pte1 fl huo0) pte0)
-                                       (map to_lower m ++ T')) /\
-              (flushed = false -> Res (w1body cfg d tld bidi false label (MixedCaseAscii m) huo flushed
-                                          (fun huo0 pte1 fl => walk1 cfg true never_unicode d tld bidi false labels' (map MixedCaseAscii rl') true pte1 fl huo0) pte0)
-                                      (P0 ++ map to_lower m ++ T'))).
-    { intros pte0 P0 Hb. unfold w1body. apply (mixed_an m 830 844 pte0 flushed kk T' P0 (tailtext true rl')); [exact Hk|].
+              (flushed = true -> Ended (mixed_write cfg d m false true 830 844 pte0 flushed kk) (map to_lower m ++ T')) /\
+              (flushed = false -> Res (mixed_write cfg d m false true 830 844 pte0 flushed kk) (P0 ++ map to_lower m ++ T'))).
+    { intros pte0 P0 Hb. apply (mixed_an m 830 844 pte0 flushed kk T' P0 (tailtext true rl')); [exact Hk|].
       intros Hf. destruct (Hb Hf) as [Hdd HP0]. split; [exact Hdd|]. split; [exact HP0|]. split.
       - intros HR. apply tailtext_nil_inv in HR. subst rl'. reflexivity.
       - intros HR Hnu. unfold kk.
@@ -227,6 +238,41 @@ Section MainAN.
 Variable A : adapter.
 Variable cfg : bool.
 
+(* an accepted name of the class, either mode, any display policy *)
+Theorem process_an_acc ff pol d deny hy : bytes d -> AN d -> DenyUpper deny -> LdhFree deny ->
+  forallb (lab_acc deny hy) (split_on DOT d) = true ->
+  let pr := process A cfg ff pol d deny hy None None false in
+  (exists s1, pr = (PPassthrough, s1, []) /\ map to_lower d = d) \/ pr = (PWroteToSink, map to_lower d, []).
+Proof.
+  intros Hb Han HU HL Hacc. cbv zeta.
+  pose proof (process_inner_an_facts deny hy HU HL A cfg d Hb Han) as HF. rewrite Hacc in HF.
+  destruct HF as (ptu & db & P & rl & Ei & Hdd & HP & Hc & Hnf & Hsp).
+  rewrite (process_inner_an_acc A cfg true deny hy HU HL d Hb Han Hacc) in Ei.
+  rewrite <- (process_inner_an_acc A cfg ff deny hy HU HL d Hb Han Hacc) in Ei.
+  assert (HlP : map to_lower P = P).
+  { apply lower_noupper. eapply Forall_impl; [|exact Hc]. intros c Hcc. exact (proj1 (proj2 (clean_final deny c HU Hcc))). }
+  assert (Hlow : map to_lower d = P ++ join_dots (map (map to_lower) rl)).
+  { rewrite Hdd at 1. rewrite map_app, HlP, lower_join. reflexivity. }
+  unfold process. rewrite Ei.
+  destruct (ptu =? len d) eqn:Ep.
+  - left. rewrite andb_false_r. exists []. split; [reflexivity|].
+    apply N.eqb_eq in Ep. assert (Hj : join_dots rl = []).
+    { apply len_zero. rewrite Hdd in Ep. rewrite len_app in Ep. lia. }
+    rewrite Hlow, <- lower_join, Hj. cbn [map]. rewrite Hdd, Hj. reflexivity.
+  - assert (Hne : rl <> []).
+    { intros ->. apply N.eqb_neq in Ep. apply Ep. rewrite Hdd. cbn [join_dots]. rewrite app_nil_r. symmetry. exact HP. }
+    rewrite (andb_false_r ff). rewrite Hnf. cbn [Bool.eqb negb]. rewrite andb_false_r. rewrite (Hsp Hne).
+    match goal with |- context [walk1 ?a ?b ?c ?d0 ?e ?f ?g ?h ?i ?j ?k ?l ?m] =>
+      pose proof (walk_an a b c d0 e f rl h j k l m P) as HW end.
+    cbv zeta in HW. rewrite map_length in HW. specialize (HW eq_refl (fun _ => conj Hdd (conj HP Hne))).
+    destruct HW as [_ HW]. specialize (HW eq_refl).
+    match type of HW with Res _ ?w _ => destruct w as [ws we] end.
+    cbn [tailtext] in HW. rewrite <- Hlow in HW. cbn [fst snd run_sink negb].
+    destruct HW as [[Hwe Hd]|[[h Hwe] Hws]]; cbn [fst snd] in *; subst we.
+    + left. exists (concat ws). split; [reflexivity|]. symmetry. exact Hd.
+    + right. rewrite andb_false_r. rewrite Hws. reflexivity.
+Qed.
+
 Theorem process_an d deny hy : bytes d -> AN d -> DenyUpper deny -> LdhFree deny ->
   let pr := process A cfg true never_unicode d deny hy None None false in
   if forallb (lab_acc deny hy) (split_on DOT d) then
@@ -234,32 +280,10 @@ Theorem process_an d deny hy : bytes d -> AN d -> DenyUpper deny -> LdhFree deny
   else pr = (PValidityError, [], []).
 Proof.
   intros Hb Han HU HL. cbv zeta.
-  pose proof (process_inner_an_facts deny hy HU HL A cfg d Hb Han) as HF.
-  destruct (forallb (lab_acc deny hy) (split_on DOT d)).
-  - destruct HF as (ptu & db & P & rl & Ei & Hdd & HP & Hc & Hnf & Hsp).
-    assert (HlP : map to_lower P = P).
-    { apply lower_noupper. eapply Forall_impl; [|exact Hc]. intros c Hcc. exact (proj1 (proj2 (clean_final deny c HU Hcc))). }
-    assert (Hlow : map to_lower d = P ++ join_dots (map (map to_lower) rl)).
-    { rewrite Hdd at 1. rewrite map_app, HlP, lower_join. reflexivity. }
-    unfold process. rewrite Ei.
-    destruct (ptu =? len d) eqn:Ep.
-    + left. rewrite andb_false_r. exists []. split; [reflexivity|].
-      apply N.eqb_eq in Ep. assert (Hj : join_dots rl = []).
-      { apply len_zero. rewrite Hdd in Ep. rewrite len_app in Ep. lia. }
-      rewrite Hlow, <- lower_join, Hj. cbn [map]. rewrite Hdd, Hj. reflexivity.
-    + assert (Hne : rl <> []).
-      { intros ->. apply N.eqb_neq in Ep. apply Ep. rewrite Hdd. cbn [join_dots]. rewrite app_nil_r. symmetry. exact HP. }
-      cbn [andb]. rewrite Hnf. cbn [Bool.eqb negb]. rewrite andb_false_r. rewrite (Hsp Hne).
-      match goal with |- context [walk1 ?a ?b ?c ?d0 ?e ?f ?g ?h ?i ?j ?k ?l ?m] =>
-        pose proof (walk_an a d0 e f rl h j k l m P) as HW end.
-      cbv zeta in HW. rewrite map_length in HW. specialize (HW eq_refl (fun _ => conj Hdd (conj HP Hne))).
-      destruct HW as [_ HW]. specialize (HW eq_refl).
-      match type of HW with Res _ ?w _ => destruct w as [ws we] end.
-      cbn [tailtext] in HW. rewrite <- Hlow in HW. cbn [fst snd run_sink negb].
-      destruct HW as [[Hwe Hd]|[[h Hwe] Hws]]; cbn [fst snd] in *; subst we.
-      * left. exists (concat ws). split; [reflexivity|]. symmetry. exact Hd.
-      * right. rewrite andb_false_r. rewrite Hws. reflexivity.
-  - destruct HF as [Ei Hne]. unfold process. rewrite Ei. unfold I_EXIT.
+  destruct (forallb (lab_acc deny hy) (split_on DOT d)) eqn:Hacc.
+  - exact (process_an_acc true never_unicode d deny hy Hb Han HU HL Hacc).
+  - pose proof (process_inner_an_facts deny hy HU HL A cfg d Hb Han) as HF. rewrite Hacc in HF.
+    destruct HF as [Ei Hne]. unfold process. rewrite Ei. unfold I_EXIT.
     replace (0 =? len d) with false; [reflexivity|].
     symmetry. apply N.eqb_neq. intros H. symmetry in H. apply len_zero in H. contradiction.
 Qed.
